@@ -44,7 +44,7 @@ def piece(rng, ty, style=None):
 
 def ends(rng, n, style=None):
     """non-decreasing, non-NaN list of n breakpoints (floats)"""
-    style = style or rng.choice(["inc", "inc", "dups", "zero_width", "wide", "around_zero", "with_inf", "ints"])
+    style = style or rng.choice(["inc", "inc", "dups", "zero_width", "wide", "around_zero", "with_inf", "ints", "huge"])
     if style == "ints":
         start = rng.randint(-5, 5)
         xs = [float(start + i) for i in range(n)]
@@ -66,6 +66,15 @@ def ends(rng, n, style=None):
         xs = sorted(rng.choice(base) for _ in range(n))
     elif style == "wide":
         xs = sorted(rng.f64_loguniform(-200, 200) for _ in range(n))
+    elif style == "huge":
+        # ends close to the top of the binary64 range (sums and midpoints of two ends overflow), one or both signs
+        sign = rng.choice([-1.0, 1.0, 0.0])
+        xs = []
+        for _ in range(n):
+            m = rng.choice([1.0e308, 1.5e308, 1.7e308, 9e307, 1.7976931348623157e308])
+            sg = sign if sign else rng.choice([-1.0, 1.0])
+            xs.append(sg * m * rng.choice([1.0, 0.999, 0.5]))
+        xs.sort()
     elif style == "around_zero":
         pool = [-1.0, -5e-324, -0.0, 0.0, 5e-324, 1.0, -2.2250738585072014e-308, 2.2250738585072014e-308]
         xs = [rng.choice(pool) for _ in range(n)]
